@@ -169,7 +169,7 @@ fn check_tape(tape: &[u8], gates: &Gates, codes: &[String], stats: &mut Stats, c
         match &base {
             None => base = Some(key),
             Some(b) => {
-                if b.0 != key.0 {
+                if (b.0 == Some(0)) != (key.0 == Some(0)) {
                     return Err(fail("argument-order", "exit-differs", format!("exit status {:?} vs {:?} for another argument order", b.0, key.0)));
                 }
             }
@@ -190,7 +190,7 @@ fn check_tape(tape: &[u8], gates: &Gates, codes: &[String], stats: &mut Stats, c
             stats.class("check.directory");
         }
         channels_agree(&o, codes, "check <dir>").map_err(|(k, d)| fail("channels", &k, d))?;
-        if o.status != b.0 {
+        if (o.status == Some(0)) != (b.0 == Some(0)) {
             return Err(fail("directory", "exit-differs", format!("`check <dir>` exits {:?}, `check <files>` exits {:?}", o.status, b.0)));
         }
         let kd = keyed(&o.diags);
@@ -228,7 +228,7 @@ fn check_tape(tape: &[u8], gates: &Gates, codes: &[String], stats: &mut Stats, c
             }
             channels_agree(&o, codes, "check <dir> <file of dir>").map_err(|(k, d)| fail("channels", &k, d))?;
             if let Some(b) = &base {
-                if o.status != b.0 {
+                if (o.status == Some(0)) != (b.0 == Some(0)) {
                     return Err(fail("same-file-twice", "exit-differs", format!("`check {}` (cwd = parent of set/) exits {:?}, `check <files>` exits {:?}", args[1..].join(" "), o.status, b.0)));
                 }
             }
@@ -243,7 +243,7 @@ fn check_tape(tape: &[u8], gates: &Gates, codes: &[String], stats: &mut Stats, c
                 stats.class("check.mixture");
             }
             channels_agree(&o, codes, "check <dir> <file>").map_err(|(k, d)| fail("channels", &k, d))?;
-            if o.status != b.0 {
+            if (o.status == Some(0)) != (b.0 == Some(0)) {
                 return Err(fail("mixture", "exit-differs", format!("adding a valid file to the set changes the exit status from {:?} to {:?}", b.0, o.status)));
             }
         }
